@@ -92,10 +92,15 @@ def analysed_summary(repo: Repo) -> dict:
         "modules": sorted(m.rel for m in repo.modules.values()),
         "functions": len(repo.funcs),
         "statement_inventory": repo.inventory,
+        "normalisation": {"rewrites_applied": repo.desugared,
+                          "what": "behaviour-preserving rewrites applied by the loader before the rules ran (sa/desugar.py, sa/inline.py); "
+                                  "the statement inventory above is taken after them"},
     }
 
 
 ASSUMPTIONS = [
+    "the normalisation rewrites of sa/desugar.py / sa/inline.py preserve behaviour under their stated side conditions "
+    "(numpy method and function spellings of max/min/clip/copy/nonzero are equivalent on arrays; @np.errstate does not change values)",
     "Python's dynamic features are not used against the analysis: no monkey-patching, "
     "no setattr/exec/eval/globals() (the loader checks the package contains none); "
     "user callables obey the documented signatures",
